@@ -15,8 +15,17 @@ constructed instruments holding bit-identical buffers; feature OBJECTS shared be
 hedgers vs feature objects of their own; histories of the `hedge=` argument (default, explicit underlier,
 listed derivatives on the derivative's underlier; fit(hedge=...) followed by calls with the default) while the
 underlier of the listed instruments is re-simulated / cast through other owners, vs a newly constructed world.
+
+correspondence (c): the hedger SESSION inside the model (Model/HedgerSession.lean, op "hedger_session"; theorems of Lemmas/C16Session.lean:
+history_independence, answer_indep_prev, default_hedge_after_history, listed_price_after_history, queries_removable, other_derivative_frame):
+hedge-argument histories restricted to what the model has (float64, Linear(-ReLU-Linear) module, affine pricers, entropic risk / entropic loss /
+expected shortfall, SGD / Adam as class or as ONE reused instance) are run on the real objects AND through the model's `step`, operation by
+operation, on the series read off the real instruments after every (re)simulation (draws of compute_loss / price / fit re-created under the
+operation's seed): every answer (hedge tensor, P&L / portfolio vector, loss, price, parameters after fit), the parameters after every operation and
+the last time step of the prev_output buffer (state-dependent feature lists) are compared: shapes exactly, values to 1e-9 relative (max-norm).
 """
 import copy
+import math
 import inspect
 from fractions import Fraction as F
 from common import *  # noqa
@@ -511,22 +520,39 @@ def check(ctx):
     n4 = 16 if ctx.tier == "quick" else 160
     HOPS = ["compute_hedge", "compute_pl", "compute_portfolio", "compute_loss", "price"]
     HEAP_PROG = {"compute_pl": "pl"}
-    for it in range(n4):
+    # ---- the same histories inside the Lean model (Model/HedgerSession.lean, op "hedger_session": one hedger state -- parameters, prev_output buffer,
+    # optimiser instance -- and one world, `step` per operation).  Model-compared histories (`modelable`) are restricted to what the model has:
+    # float64 throughout (casts are casts to float64), a Linear(-ReLU-Linear) module, affine pricers (a pricer returning a view is `spot * 1 + 0`),
+    # entropic risk / entropic loss / expected shortfall (with ONE path count for compute_loss / price / fit: `CritH.es k` is one k); fit takes an
+    # Optimizer subclass (a new optimiser per call) or ONE optimiser instance reused by every fit of the history (SGD with momentum / Adam: its
+    # state is part of the session).  They run through the bitwise comparison with a new world below like all others, and every operation is also
+    # sent to the model: the series are read off the real instruments after each (re)simulation; for compute_loss / price / fit, which simulate
+    # inside, the draws are re-created under the operation's seed (as harness/c06.py hedger_price_section, harness/c15.py check_fit_num do).
+    SESSION_FEATS = {"log_moneyness": ["moneyness", True], "time_to_maturity": ["time_to_maturity"], "volatility": ["volatility"], "prev_hedge": ["prev_hedge"]}
+    SESSION_PAYOFF = {"EuropeanOption": "european", "LookbackOption": "lookback", "EuropeanBinaryOption": "european_binary"}
+
+    def series_json(u_):
+        enc = lambda t: enc_flt([[float(x) for x in r] for r in t.detach().to(f64).tolist()])
+        return {"spot": enc(u_.spot), "variance": enc(u_.variance), "volatility": enc(u_.volatility)}
+
+    def hedge_history(g4, modelable):
         prim = g4.choice(["BrownianStock", "BrownianStock", "HestonStock", "MertonJumpStock"])
         step = g4.choice([1 / 250, 1 / 100])
-        pkw = {"cost": g4.choice([0.0, 1e-3]), "dt": step}
+        # (model-compared histories: cost rates exactly representable in single precision -- pl() builds torch.tensor(cost) (float32) before casting
+        # to the spot's dtype, a 6e-8 relative rounding of the rate that is not this property's subject; see harness/c15.py)
+        pkw = {"cost": g4.choice([0.0, 1e-3] if not modelable else [0.0, 2.0 ** -10]), "dt": step}
         if prim != "HestonStock":
             pkw["sigma"] = g4.choice([0.2, 0.3])
         mk_u = lambda dtype_: getattr(I, prim)(dtype=dtype_, **pkw)
         nT = g4.choice([3, 5, 6])
         # hedged derivatives and listed instruments, all on the one underlier
         dspecs = [(g4.choice(["EuropeanOption", "LookbackOption", "EuropeanBinaryOption"]), {"strike": g4.choice([0.95, 1.0, 1.05]), "maturity": nT * step})
-                  for _ in range(g4.choice([1, 2]))]
+                  for _ in range(g4.choice([1, 2]) if not modelable else 2)]
         lspecs = []
         for _ in range(g4.choice([1, 2])):
-            pk = g4.choice(["affine", "affine", "view", "square+ttm"])
+            pk = g4.choice(["affine", "affine", "view", "square+ttm"] if not modelable else ["affine", "affine", "view"])
             lspecs.append(("EuropeanOption", {"call": g4.chance(0.7), "strike": g4.choice([0.9, 1.0, 1.1]), "maturity": g4.choice([nT, nT, nT + 2]) * step},
-                           pk, g4.choice([2.0, 0.5, 1.5]), g4.choice([0.25, -0.125, 1.0]), g4.choice([0.0, 1e-3, 1e-2])))
+                           pk, g4.choice([2.0, 0.5, 1.5]), g4.choice([0.25, -0.125, 1.0]), g4.choice([0.0, 1e-3, 1e-2] if not modelable else [0.0, 2.0 ** -10, 2.0 ** -7])))
 
         def mk_l(u_, spec):
             oname, okw, pk, a_, b_, c_ = spec
@@ -540,10 +566,47 @@ def check(ctx):
             return o_
         stateful = g4.chance(0.5)
         feats4 = ["log_moneyness", "time_to_maturity", "volatility"] + (["prev_hedge"] if stateful else [])
-        cur = g4.choice([f64, f64, f32])
+        cur = g4.choice([f64, f64, f32]) if not modelable else f64
         torch.manual_seed(g4.randint(0, 10 ** 6))
-        model4 = torch.nn.Sequential(torch.nn.Linear(len(feats4), 3, dtype=cur), torch.nn.Tanh(), torch.nn.Linear(3, 1, dtype=cur))
-        crit4 = g4.choice([nn.EntropicRiskMeasure(), nn.ExpectedShortfall(0.3), nn.EntropicLoss()])
+        opt_used = None
+        if not modelable:
+            model4 = torch.nn.Sequential(torch.nn.Linear(len(feats4), 3, dtype=cur), torch.nn.Tanh(), torch.nn.Linear(3, 1, dtype=cur))
+            crit4 = g4.choice([nn.EntropicRiskMeasure(), nn.ExpectedShortfall(0.3), nn.EntropicLoss()])
+            fit_kw = lambda hh, used: {}
+        else:
+            hid = g4.choice([0, 2, 3])
+            model4 = (torch.nn.Sequential(torch.nn.Linear(len(feats4), hid, dtype=cur), torch.nn.ReLU(), torch.nn.Linear(hid, 1, dtype=cur)) if hid
+                      else torch.nn.Sequential(torch.nn.Linear(len(feats4), 1, dtype=cur)))
+            crit_name, crit_a = g4.choice(["erm", "erm", "eloss", "es"]), g4.choice([1.0, 0.5, 2.0])
+            crit4 = {"erm": lambda: nn.EntropicRiskMeasure(crit_a), "eloss": lambda: nn.EntropicLoss(crit_a), "es": lambda: nn.ExpectedShortfall(0.3)}[crit_name]()
+            np_crit = g4.choice([2, 5, 8])          # the path count of every compute_loss / price / fit of this history
+            optname, opt_inst = g4.choice([("SGD", False), ("SGD", True), ("SGD", True), ("Adam", False), ("Adam", True)])
+            okw = dict(lr=g4.choice([0.01, 0.1]), momentum=g4.choice([0.0, 0.9, 0.5])) if optname == "SGD" else dict(lr=g4.choice([0.001, 0.01]))
+            opt_spec = (["sgd", float_bits(okw["lr"]), float_bits(okw["momentum"]), float_bits(0.0)] if optname == "SGD"
+                        else ["adam", float_bits(okw["lr"]), float_bits(0.9), float_bits(0.999), float_bits(1e-8), float_bits(0.0)])
+            seen_grads = []
+
+            class TheOpt(getattr(torch.optim, optname)):          # fit() accepts an Optimizer SUBCLASS or an instance
+                def __init__(self, params):
+                    super().__init__(params, **okw)
+
+                def step(self, *a_, **kw_):
+                    if self.param_groups[0]["params"][0] is next(iter(model4.parameters())):
+                        seen_grads.append([p_.grad.detach().clone() for p_ in self.param_groups[0]["params"] if p_.grad is not None])
+                    return super().step(*a_, **kw_)
+            opt_before = [None]
+            if opt_inst:
+                opt_used = TheOpt(model4.parameters())
+
+            def fit_kw(hh, used):
+                if not opt_inst:
+                    return {"optimizer": TheOpt}
+                if used:
+                    return {"optimizer": opt_used}
+                o_ = TheOpt(hh.model.parameters())          # the fresh hedger's own instance, in the state the used one was in before this call
+                o_.load_state_dict(copy.deepcopy(opt_before[0]))
+                return {"optimizer": o_}
+            theta0 = [p_.detach().clone() for p_ in model4.parameters()]
         h_used = Hedger(model4, feats4, criterion=crit4)
         u_used = mk_u(cur)
         d_used = [getattr(I, sp[0])(u_used, **sp[1]) for sp in dspecs]
@@ -557,7 +620,7 @@ def check(ctx):
             op = g4.choice(["simulate", "simulate_stock", "to", "read_listed", "fit"] + HOPS + HOPS)
             di = g4.randint(0, len(dspecs) - 1)
             if op == "to":
-                return (op, g4.choice(["stock", "derivative", "listed"]), g4.choice(["float32", "float64"]), 0, 0)
+                return (op, g4.choice(["stock", "derivative", "listed"]), g4.choice(["float32", "float64"]) if not modelable else "float64", 0, 0)
             if op == "read_listed":
                 return (op, g4.randint(0, len(lspecs) - 1), None, 0, 0)
             if op == "simulate_stock":
@@ -572,19 +635,39 @@ def check(ctx):
                (g4.choice(HOPS[3:]), 0, "default", g4.choice([2, 5]), g4.randint(0, 10 ** 6))]
         for _ in range(g4.randint(3, 6 if ctx.tier == "quick" else 16)):
             ops.append(rnd_op())
+        if modelable:
+            # the second derivative shares the underlier: hedge it after the fit on the first one, then the first one again
+            ops[6:6] = [(g4.choice(HOPS[:3]), 1, g4.choice(KINDS), np0, g4.randint(0, 10 ** 6))]
+            ops = [(o[0], o[1], o[2], np_crit if o[0] in ("compute_loss", "price", "fit") else o[3], o[4]) for o in ops]
         case = {"primary": prim, "params": pkw, "derivatives": dspecs, "listed": lspecs, "stateful": stateful, "dtype0": str(cur),
                 "criterion": type(crit4).__name__, "ops": [o[:4] for o in ops]}
-        ctx.case(case, nontrivial=True, tag="hedge_history")
+        if modelable:
+            case |= {"model": "linear" if not hid else f"linear-relu({hid})-linear", "criterion_param": crit_a if crit_name != "es" else 0.3,
+                     "optimizer": [optname, okw, "instance" if opt_inst else "class"]}
+        ctx.case(case, nontrivial=True, tag="hedge_history" if not modelable else "hedger_session")
         ctx.traces += 1
+        sops, sexp, model_ok = [], [], modelable          # the history for the model: its operations and what the implementation answered
+        href = lambda kind: None if kind == "default" else [["primary", 0]] if kind == "underlier" else [["listed", int(kind[6:])]]
+
+        def observed():
+            po = getattr(h_used, "prev_output", None)
+            return {"prev": None if po is None or not stateful else [[float(x) for x in r] for r in po.detach()[:, -1, :].tolist()],
+                    "theta": [float(x) for p_ in h_used.model.parameters() for x in p_.detach().reshape(-1).tolist()]}
         for i, (op, di, arg, npaths, seed) in enumerate(ops):
             ctx.stats[f"hedge_hist:{op}"] += 1
             if op == "simulate":          # through a hedged derivative: the listed instruments are not told
                 torch.manual_seed(seed)
                 d_used[di].simulate(n_paths=npaths)
+                if model_ok:
+                    sops.append(["simulate", 0, series_json(u_used)])
+                    sexp.append({"step": i, "op": op, "res": None} | observed())
                 continue
             if op == "simulate_stock":
                 torch.manual_seed(seed)
                 u_used.simulate(n_paths=npaths, time_horizon=dspecs[di][1]["maturity"])
+                if model_ok:
+                    sops.append(["simulate", 0, series_json(u_used)])
+                    sexp.append({"step": i, "op": op, "res": None} | observed())
                 continue
             if op == "to":
                 cur = f32 if arg == "float32" else f64
@@ -608,13 +691,14 @@ def check(ctx):
                     ctx.fail("the price of a listed derivative depends on which series its underlier held before (differs from the same instrument newly listed on "
                              "a new underlier holding bit-identical buffers)", step_case, key="listed_price_history",
                              detail={"reused": f"{getattr(got[1], 'dtype', '')} {str(got[1])[:200]}", "fresh": f"{getattr(want[1], 'dtype', '')} {str(want[1])[:200]}"})
-                    break
+                    if not modelable:          # (a model-compared history is not cut at a property failure: the model is shown all of it)
+                        break
                 continue
 
             def run(hh, dd, hedge, label):
                 torch.manual_seed(seed)
                 if op == "fit":
-                    st, v, _ = call_impl(hh.fit, dd, hedge=hedge, n_epochs=2, n_paths=npaths, verbose=False, validation=False)
+                    st, v, _ = call_impl(hh.fit, dd, hedge=hedge, n_epochs=2, n_paths=npaths, verbose=False, validation=False, **fit_kw(hh, hh is h_used))
                     return (st, torch.cat([p_.detach().reshape(-1) for p_ in hh.model.parameters()]) if st == "ok" else v)
                 if op in ("compute_loss", "price"):
                     with torch.no_grad():
@@ -629,7 +713,38 @@ def check(ctx):
                 return (st, v)
             kk = "listed" if arg.startswith("listed") else arg
             ctx.stats[f"hedge_hist:hedge={kk}"] += 1
+            if modelable:
+                del seen_grads[:]
+                if opt_inst:
+                    opt_before[0] = copy.deepcopy(opt_used.state_dict())
             r_used = run(h_used, d_used[di], hedge_arg(arg, u_used, l_used), kk)
+            if model_ok:
+                # what the model is told: the operation, and for the ones that simulate inside the draws, re-created under the operation's seed (the
+                # real call consumed random numbers in `derivative.simulate` only); the underlier ends in the series of the last draw once more
+                obs = observed()
+                if op in ("compute_loss", "price", "fit"):
+                    torch.manual_seed(seed)
+                    draws = []
+                    for _ in range(2):
+                        d_used[di].simulate(n_paths=npaths)
+                        draws.append([series_json(u_used)])
+                    if op == "fit":
+                        if optname == "Adam" and any(bool(((g_.abs() < 1e-6) & (g_.abs() > 0)).any()) for gs in seen_grads for g_ in gs):
+                            # Adam divides by sqrt(g^2) + 1e-8: a gradient component that is zero up to rounding has no stable update (harness/c15.py)
+                            ctx.stats["hedger_session:cut_at_adam_gradient_component_near_zero"] += 1
+                            model_ok = False
+                        else:
+                            sops.append(["fit", di, href(arg), opt_spec, opt_inst, [{"train": dr, "val": None} for dr in draws]])
+                    else:
+                        sops.append([op, di, href(arg), draws])
+                else:
+                    sops.append([op, di, href(arg)])
+                if model_ok:
+                    v_ = r_used[1]
+                    if r_used[0] == "ok":
+                        v_ = v_.detach()
+                        v_ = v_.transpose(-1, -2).tolist() if op == "compute_hedge" else [float(x) for x in v_.reshape(-1).tolist()]
+                    sexp.append({"step": i, "op": op, "hedge": arg, "derivative": di, "res": (r_used[0], v_)} | obs)
             r_new = run(h_new, d_new[di], hedge_arg(arg, u_new, l_new), kk)
             ctx.stats[f"hedge_hist-result:{r_used[0]}"] += 1
             if not same_result(r_used, r_new):
@@ -639,14 +754,95 @@ def check(ctx):
                          "with the same parameters on newly constructed instruments holding bit-identical buffers, same `hedge=` argument, same seed)",
                          step_case | {"hedge": arg}, key=f"hedge_history:{op}:{kk}",
                          detail={"reused": f"{getattr(v1, 'dtype', '')} {str(v1)[:200]}", "fresh": f"{getattr(v2, 'dtype', '')} {str(v2)[:200]}"})
-                break
+                if not modelable:
+                    break
             if arg == "default" and op != "fit":
                 # the documented meaning of the default: the derivative's underlier(s)
                 r_exp = run(h_used, d_used[di], [u_used], "underlier")
                 if not same_result(r_used, r_exp):
                     ctx.fail("a hedging operation with the default `hedge` gives another result than the same hedger with hedge=[the derivative's underlier]",
                              step_case, key=f"default_hedge:{op}", detail={"default": str(r_used[1])[:200], "explicit": str(r_exp[1])[:200]})
-                    break
+                    if not modelable:
+                        break
+        if not modelable or not sops:
+            return None
+        layers = [{"w": enc_flt([[float(x) for x in r] for r in w_.tolist()]), "b": enc_flt([float(x) for x in b_.tolist()])}
+                  for w_, b_ in zip(theta0[0::2], theta0[1::2])]
+        empty = {"spot": [], "variance": [], "volatility": []}
+        world = {"underliers": [{"series": empty, "dt": float_bits(float(u_used.dt)), "cost": float_bits(float(u_used.cost))}],
+                 "derivs": [{"uls": [0], "payoff": {"kind": SESSION_PAYOFF[sp[0]], "call": True, "strike": float_bits(sp[1]["strike"])}, "adds": []} for sp in dspecs],
+                 "listed": [{"ul": 0, "a": float_bits(sp[3] if sp[2] == "affine" else 1.0), "b": float_bits(sp[4] if sp[2] == "affine" else 0.0),
+                             "cost": float_bits(sp[5])} for sp in lspecs]}
+        crit_spec = {"erm": ["erm", float_bits(crit_a)], "eloss": ["eloss", float_bits(crit_a)], "es": ["es", math.ceil(0.3 * np_crit)]}[crit_name]
+        req = {"op": "hedger_session", "features": [SESSION_FEATS[nm] for nm in feats4], "layers": layers, "crit": crit_spec, "world": world, "ops": sops}
+        return case, req, sexp
+
+    for it in range(n4):
+        hedge_history(g4, False)
+    g5 = Gen(f"{ctx.seed}:hedger_session")
+    n5 = 12 if ctx.tier == "quick" else 120
+    sessions = [r_ for r_ in (hedge_history(g5, True) for _ in range(n5)) if r_ is not None]
+    try:
+        souts = ctx.driver([r_[1] for r_ in sessions])
+    except DriverBroken as e:
+        ctx.ties_broken.append({"kind": "driver", "detail": str(e)[:1500]})
+        souts = []
+    STOL = 1e-9
+
+    def flat(x):
+        return [z for y in x for z in flat(y)] if isinstance(x, list) else [x]
+
+    def shape_of(x):
+        return [len(x)] + (shape_of(x[0]) if x and isinstance(x[0], list) else []) if isinstance(x, list) else []
+
+    def close(a, b):
+        """same nested shape, values within 1e-9 relative on the max-norm (the measure of harness/c15.py check_fit_num)"""
+        if shape_of(a) != shape_of(b):
+            return False
+        fa, fb = flat(a), flat(b)
+        scale = max([0.0] + [abs(x) for x in fa + fb if x == x])
+        return all((x != x and y != y) or x == y or abs(x - y) <= STOL * scale for x, y in zip(fa, fb))
+    for (case, req, sexp), mo in zip(sessions, souts):
+        steps_ = mo.get("steps") if isinstance(mo, dict) else None
+        if not isinstance(steps_, list) or len(steps_) != len(sexp):
+            ctx.disagree("hedger_session", case, f"{len(sexp)} operations", mo if not isinstance(steps_, list) else f"{len(steps_)} answers")
+            continue
+        for e_, m_ in zip(sexp, steps_):
+            ctx.stats["hedger_session_compared"] += 1
+            ctx.stats[f"hedger_session:{e_['op']}"] += 1
+            where = case | {k_: e_[k_] for k_ in ("step", "op", "hedge", "derivative") if k_ in e_}
+            out = m_["out"]
+            bad = None
+            if e_["res"] is None:
+                if out is not None:
+                    bad = ("answer", None, out)
+            else:
+                st, v = e_["res"]
+                key_ = {"compute_hedge": "hedge", "compute_pl": "vec", "compute_portfolio": "vec", "compute_loss": "scalar", "price": "scalar", "fit": "fit"}[e_["op"]]
+                mv = (out or {}).get(key_)
+                if mv is None:
+                    bad = ("kind of answer", key_, out)
+                elif st != "ok":
+                    if mv.get("err") != v:
+                        bad = ("error", v, mv)
+                elif "ok" not in mv:
+                    bad = ("answer", "ok", mv)
+                else:
+                    got = dec_flt(mv["ok"]["final"] if key_ == "fit" else mv["ok"])
+                    got = [got] if key_ == "scalar" else got
+                    if not close(v, got):
+                        bad = ("parameters after fit" if key_ == "fit" else "answer", v, got)
+            if bad is None and not close(e_["theta"], dec_flt(m_["theta"])):
+                bad = ("parameters after the operation", e_["theta"], dec_flt(m_["theta"]))
+            if bad is None and e_["prev"] is not None and not close(e_["prev"], dec_flt(m_["prev"])):
+                bad = ("prev_output buffer (last time step) after the operation", e_["prev"], dec_flt(m_["prev"]))
+            if bad is not None:
+                ctx.stats["hedger_session_disagreements"] += 1
+                ctx.disagree("hedger_session", where | {"what": bad[0]}, bad[1], bad[2],
+                             note="Model/HedgerSession.lean `step` on the same history (series read off the real instruments after every (re)simulation); "
+                                  f"shapes exact, values within {STOL} relative (max-norm)")
+                break
+    ctx.extra["hedger_session_histories"] = len(sessions)
     # ------------------------------------------------------------------ model side: programs predicted pure
     return ctx.finish(
         rule="mutation sweep: every built-in feature (both modes, log variants, ModuleOutput), payoff, listed price incl. a pricer returning a view, "
@@ -661,7 +857,10 @@ def check(ctx):
              "followed by calls with the default), the underlier re-simulated through the hedged derivatives / directly and cast through stock / derivative / "
              "listed instrument, vs a fresh hedger on a newly constructed underlier with bit-identical buffers, new derivatives and newly listed instruments "
              "(same hedge argument, same seed; parameters after fit compared bitwise), default vs hedge=[underlier] on the same hedger, listed prices vs newly "
-             "listed ones; every case non-trivial; distinct = sha1 of canonical case")
+             "listed ones; hedger session: 12 / 120 such histories (float64, Linear(-ReLU-Linear), affine pricers, erm / eloss / es, SGD / Adam as class or reused "
+             "instance, two derivatives on the one underlier) also executed by the Lean op hedger_session (Model/HedgerSession.lean `step`) on the series "
+             "read off the real instruments; every answer, the parameters and the prev_output buffer after every operation compared (shapes exact, "
+             "values 1e-9 relative); every case non-trivial; distinct = sha1 of canonical case")
 
 
 def nn_module_output(torch, mk, thr, g):
